@@ -166,6 +166,54 @@ func H05_expire() {
 	e.s.Fini()
 }
 
+// H05_concurrent: the reader, the main loop and the polling application run concurrently:
+// 2..4 keys arrive in two reads while the application polls, with up to `preempt` forced
+// context switches at synchronisation points.  Under every such interleaving the keys
+// arrive exactly once and in input order, and an event the application posted itself
+// is delivered too.
+func H05_concurrent() {
+	e := h01New("xterm-256color", 3, 1, false)
+	for e.s.HasPendingEvent() {
+		e.s.PollEvent()
+	}
+	m := 2 + vsymChoice("keys", 3)
+	split := 1 + vsymChoice("split", m-1)
+	post := vsymChoice("post", 2) == 1
+	keys := make([]byte, m)
+	for i := range keys {
+		keys[i] = byte('a' + i)
+	}
+	vsymPreemptWindow(true)
+	e.tty.inCh <- keys[:split]
+	if post {
+		vsymAssert(e.s.PostEvent(&h05Ev{id: 7}) == nil, "PostEvent succeeds while the queue has room")
+	}
+	e.tty.inCh <- keys[split:]
+	got, posted := 0, 0
+	total := m
+	if post {
+		total++
+	}
+	for i := 0; i < total; i++ {
+		switch ev := e.s.PollEvent().(type) { // blocks until an event is there: a blocked path is reported
+		case *EventKey:
+			vsymAssert(ev.Key() == KeyRune && ev.Rune() == rune('a'+got), "key events arrive exactly once and in input order under every interleaving")
+			got++
+		case *h05Ev:
+			vsymAssert(ev.id == 7, "the posted event is delivered as posted")
+			posted++
+		default:
+			vsymAssert(false, "only the typed keys and the posted event are delivered")
+		}
+	}
+	vsymPreemptWindow(false)
+	vsymAssert(got == m, "every typed key is delivered")
+	vsymAssert(post == (posted == 1), "the posted event is delivered exactly once")
+	vsymRunBlocked()
+	vsymAssert(!e.s.HasPendingEvent(), "nothing is delivered twice")
+	e.s.Fini()
+}
+
 // H05_chan: ChannelEvents forwards in order and closes its channel on quit and on Fini.
 func H05_chan() {
 	e := h01New("xterm-256color", 3, 1, false)
